@@ -354,7 +354,7 @@ def mk_broker(I, last_accrual="none"):
     q = I.sym_map("qty", default="float")
     m = I.sym_map("margins", default="float")
     l = I.sym_map("last", default=None)
-    tr = I.new_rec("TrackRecord")
+    tr = I.new_rec("TrackRecord", _has_time=lambda x: FALSE, _n=In(0), _last_record=None)
     la = None if last_accrual == "none" else I.fl("last_accrual")
     b = I.new_rec("Broker", exchange=ex, base_currency=KeyV(cash), fees=fees, _epsilon=I.fl("eps"),
                   _holdings_margins=m, _holdings_quantity=q, _initial_deposit=I.fl("deposit"),
